@@ -133,8 +133,58 @@ def detect(names):
                                         for c, v in res.items())))
 
 
+def detect_par_one(n):
+    d = os.path.join(SEEDED, n)
+    meta = json.load(open(os.path.join(d, "meta.json")))
+    pid = meta["property"]
+    w = os.path.join("/root/scratch/det", n)
+    shutil.rmtree(w, ignore_errors=True)
+    os.makedirs(os.path.join(w, "repo"))
+    try:
+        sh("git -C /repo archive HEAD | tar -x -C %s/repo" % w)
+        r = sh("git apply --whitespace=nowarn %s" % os.path.join(d, "patch.diff"), cwd=os.path.join(w, "repo"))
+        if r.returncode != 0:
+            r = sh("patch -p1 < %s" % os.path.join(d, "patch.diff"), cwd=os.path.join(w, "repo"))
+        if r.returncode != 0:
+            return n, {"error": "patch does not apply"}
+        sh("cp -r %s %s/verif" % (SNAP, w))
+        res = {}
+        for c in [pid] + [c for c in meta.get("also_check", []) if c != pid]:
+            r = sh("./check %s --tier quick" % c, cwd=os.path.join(w, "verif"),
+                   env=dict(ENV, VERIF_DEV_REPO=os.path.join(w, "repo")), timeout=3000)
+            lines = [l for l in r.stdout.splitlines() if l.startswith("VIOLATION")]
+            res[c] = {"exit": r.returncode, "violations": len(lines), "first": lines[:1],
+                      "summary": [l for l in r.stdout.splitlines() if l.startswith(c + ":")][-1:],
+                      "no_failing_input": bool(lines) and all(l.endswith("no-failing-input-found") for l in lines)}
+        return n, res
+    finally:
+        shutil.rmtree(w, ignore_errors=True)
+
+
+SNAP = "/root/scratch/det/_verif_snapshot"
+
+
+def detect_par(names):
+    """development aid: a frozen copy of /verif against patched scratch copies of the repository"""
+    names = names or sorted(x for x in os.listdir(SEEDED) if os.path.isfile(os.path.join(SEEDED, x, "patch.diff")))
+    shutil.rmtree("/root/scratch/det", ignore_errors=True)
+    os.makedirs("/root/scratch/det")
+    sh("cp -r %s %s && rm -rf %s/.git %s/replays/*" % (VERIF, SNAP, SNAP, SNAP))
+    with ThreadPoolExecutor(max_workers=5) as ex:
+        for n, res in ex.map(detect_par_one, names):
+            print("%-12s %s" % (n, " ".join("%s:exit=%s,viol=%s%s" % (c, v.get("exit"), v.get("violations"),
+                                                                    "(nfi)" if v.get("no_failing_input") else "")
+                                            if isinstance(v, dict) else "%s:%s" % (c, v) for c, v in res.items())), flush=True)
+            meta = json.load(open(os.path.join(SEEDED, n, "meta.json")))
+            meta["detection_dev"] = res
+            json.dump(meta, open(os.path.join(SEEDED, n, "meta.json"), "w"), indent=1)
+    shutil.rmtree("/root/scratch/det", ignore_errors=True)
+
+
 if __name__ == "__main__":
     if sys.argv[1] == "confirm":
         confirm(sys.argv[2:])
+    elif sys.argv[1] == "detect-par":
+        detect_par(sys.argv[2:])
     else:
         detect(sys.argv[2:])
